@@ -38,5 +38,5 @@ def cases(ctx):
     return eg.engine_cases(max_jobs=ctx.pick(5, 7), up_pct=75, tokens=1, foreign=False, fail_pct=15, wait_pct=10, preout_pct=30, adopt_pct=10)
 
 
-PARTS = [Part("engine", prop, strategy=cases, quick=6400, thorough=160000, shrink_budget=40)]
+PARTS = [Part("engine", prop, strategy=cases, quick=6400, thorough=64000, shrink_budget=40)]
 TIMEOUT = {"quick": 900, "thorough": 5400}
